@@ -94,7 +94,7 @@ structure Atom (α : Type) where
   x : α
   y : α
   z : α
-  deriving Repr, Inhabited
+  deriving Repr, Inhabited, DecidableEq
 
 structure Cell (α : Type) where
   a : α
@@ -103,7 +103,7 @@ structure Cell (α : Type) where
   alpha : α
   beta : α
   gamma : α
-  deriving Repr, Inhabited
+  deriving Repr, Inhabited, DecidableEq
 
 /-- a crystal as a value (what the caller means by "the crystal I added") -/
 structure Crystal (α : Type) where
@@ -111,7 +111,7 @@ structure Crystal (α : Type) where
   cell : Cell α
   volume : α
   atoms : List (Atom α)
-  deriving Repr, Inhabited
+  deriving Repr, Inhabited, DecidableEq
 
 /-- `Crystal_Struct` as it lies in memory (include/xraylib-defs.h:58-67): two owned pointers -/
 structure CStruct (α : Type) where
@@ -428,7 +428,7 @@ def ParseErr.toErr : ParseErr → Err
 structure Parsed (α : Type) where
   good : List (Crystal α)
   bad : Option ParseErr
-  deriving Inhabited
+  deriving Inhabited, DecidableEq
 
 inductive FileArg (α : Type) where
   | nullName
